@@ -1,18 +1,23 @@
 #!/bin/bash
-# tools/mkmut.sh <ID> <name> <file-rel-to-repo> <python-expr-old> <new>   : make a one-replacement mutant patch
-# usage: tools/mkmut.sh C02 swap_xfail src/exactly_lib/x.py 'old text' 'new text'
-id=$1; name=$2; file=$3; old=$4; new=$5
+# tools/mkmut.sh <ID> <name> <file-rel-to-repo> <old> <new> [<old2> <new2> ...]
+# Makes mutants/<ID>/<name>.patch from /repo/<file> by replacing each <old> (must occur exactly once) by <new>.
+id=$1; name=$2; file=$3; shift 3
 tmp=$(mktemp -d /tmp/vx-mk-XXXXXX)
 mkdir -p "$tmp/a/$(dirname $file)" "$tmp/b/$(dirname $file)"
 cp "/repo/$file" "$tmp/a/$file"
-OLD="$old" NEW="$new" python3 - "$tmp/a/$file" "$tmp/b/$file" <<'PY'
-import os, sys
+python3 - "$tmp/a/$file" "$tmp/b/$file" "$@" <<'PY'
+import sys
 s = open(sys.argv[1]).read()
-old, new = os.environ['OLD'], os.environ['NEW']
-n = s.count(old)
-if n != 1:
-    sys.stderr.write('expected exactly one occurrence, found %d\n' % n); sys.exit(1)
-open(sys.argv[2], 'w').write(s.replace(old, new))
+args = sys.argv[3:]
+if len(args) % 2 or not args:
+    sys.stderr.write('need old/new pairs\n'); sys.exit(1)
+for i in range(0, len(args), 2):
+    old, new = args[i], args[i + 1]
+    n = s.count(old)
+    if n != 1:
+        sys.stderr.write('expected exactly one occurrence of %r, found %d\n' % (old[:60], n)); sys.exit(1)
+    s = s.replace(old, new)
+open(sys.argv[2], 'w').write(s)
 PY
 [ $? -eq 0 ] || { rm -rf "$tmp"; exit 1; }
 mkdir -p "mutants/$id"
